@@ -117,3 +117,10 @@ package chancloser
 //@   loop * havoc
 //@   site call CreateCloseProposal: assert arg(closeOpt) == chanOpts && arg(proposedFee) == fee &&
 //@        arg(localDeliveryScript) == localScript && arg(remoteDeliveryScript) == remoteScript
+//@
+//@ // ---- the signature handed on is the one carried by the variant that is present
+//@ func extractRegularSig
+//@   props C17
+//@   site call WhenSomeV nth 0: assert arg(0).Option.some.Val.bytes == msg.ClosingSigs.CloserNoClosee.Option.some.Val.bytes && ret(IsSome, 3)
+//@   site call WhenSomeV nth 1: assert arg(0).Option.some.Val.bytes == msg.ClosingSigs.NoCloserClosee.Option.some.Val.bytes && ret(IsSome, 4)
+//@   site call WhenSomeV nth 2: assert arg(0).Option.some.Val.bytes == msg.ClosingSigs.CloserAndClosee.Option.some.Val.bytes && ret(IsSome, 5)
